@@ -293,8 +293,11 @@ class ParseContext(ParserEngine):
             return cstfinal(self.cst)
         finally:
             ast = self.ast
-            self.states.pop()
+            cutseen = self.states.pop().cutseen
             self.ast = ast
+            if cutseen:
+                # a cut inside a closure iteration commits that iteration
+                self.state.cutseen = True
 
     _isolate = isolate
 
